@@ -28,6 +28,13 @@ def strip(cmd):
             and "git checkout" not in x and "git stash" not in x and "git clean" not in x]
     import re
     keep = [re.sub(r"\b(CARGO_TARGET_DIR|CARGO_HOME|CARGO_NET_OFFLINE)=\S+\s*", "", x) for x in keep]
+    def core(x):
+        m = re.search(r"cargo\s+(test|nextest|check|run)\b.*", x)
+        x = m.group(0) if m else x
+        x = re.sub(r"\s{2,}\(.*$", "", x)
+        x = re.sub(r"\s+\((after|without|with|run|note)\b.*$", "", x)
+        return x
+    keep = [core(x) for x in keep]
     keep = [x.strip().lstrip("[]() ").rstrip("[]() ") for x in keep]
     keep = [x for x in keep if x]
     return " && ".join(keep)
